@@ -13,12 +13,16 @@ for S in "${SEEDS[@]}"; do
   WT=$WORK/wt-$S
   git -C /repo worktree add --detach $WT HEAD >/dev/null 2>&1 || { echo "$S worktree failed"; continue; }
   if ! git -C $WT apply $P 2>/dev/null; then echo "$S PATCH DOES NOT APPLY to HEAD" | tee $D/matrix.txt; git -C /repo worktree remove --force $WT; continue; fi
+  [ -n "${MATRIX_PROPS:-}" ] && [ -f $D/matrix.txt ] && cp $D/matrix.txt $D/matrix.old || rm -f $D/matrix.old
   : > $D/matrix.txt
   for PR in $PROPS; do
     OUT=$(cd $WORK/verif && REPO_DIR=$WT bin/check $PR quick 2>&1); RC=$?
     CLS=$(echo "$OUT" | grep -E "^VIOLATION" | sed -E 's/.*kind=([^ ]+) .*/\1/' | sort | uniq -c | sort -rn | head -3 | awk '{printf "%s×%s ", $1, $2}')
     echo "$PR $RC $CLS" >> $D/matrix.txt
   done
+  if [ -f $D/matrix.old ]; then   # partial re-run: keep the lines of the checks that were not re-run
+    awk 'NR==FNR{seen[$1]=1; next} !($1 in seen)' $D/matrix.txt $D/matrix.old >> $D/matrix.txt; sort -o $D/matrix.txt $D/matrix.txt; rm -f $D/matrix.old
+  fi
   echo "$S: $(awk '$2==1{printf "%s ", $1}' $D/matrix.txt)| errors: $(awk '$2>1{printf "%s ", $1}' $D/matrix.txt)"
   git -C /repo worktree remove --force $WT >/dev/null 2>&1; rm -rf $WT
 done
